@@ -7,6 +7,23 @@ All archive handling goes through harness.arch, i.e. the same code the in-proces
 import sys, os, json, base64
 
 
+class MainPoint(object):
+    """a user class defined in the session's main script (C17: keys of calls taking such objects must not depend on incidental
+    properties of __main__ such as line numbers or the script path; one worker runs a shifted copy of this file)"""
+
+    def __init__(self, x):
+        self.x = x
+
+    def __eq__(self, other):
+        return type(other).__name__ == 'MainPoint' and other.x == self.x
+
+    def __hash__(self):
+        return hash(('MainPoint', self.x))
+
+    def __repr__(self):
+        return 'MainPoint(%r)' % (self.x,)
+
+
 def main():
     verif = os.environ['VERIF_HOME']
     if verif not in sys.path:
